@@ -2,7 +2,6 @@
 
 use crate::corpus;
 use crate::fam::{self, Family, V3, V5};
-use crate::gen::GenCfg;
 use crate::model::{fnv, hex_short};
 use crate::run::{guard, CaseResult, Ctx, Env, Input, RunResult, Sub};
 use crate::specpred;
@@ -102,7 +101,7 @@ pub fn all_fronts<F: Family>(b: &[u8], origin: &str, ctx: &mut Ctx) -> CaseResul
 
 fn case<F: Family>(input: &Input, ctx: &mut Ctx) -> CaseResult {
     let mut t = Tape::new(input.tape());
-    let cfg = if ctx.thorough && t.chance(1, 6) { GenCfg::MEDIUM } else { GenCfg::SMALL };
+    let cfg = crate::gen::cfg_mix(&mut t, ctx.thorough);
     let (b, origin) = corpus::gen_input::<F>(&mut t, &cfg);
     all_fronts::<F>(&b, origin, ctx)
 }
